@@ -55,6 +55,15 @@ pub fn run(o: &Opts) {
       let (a, b, c) = (it.next().unwrap_or(""), it.next().unwrap_or(""), it.next().unwrap_or(""));
       srcs.push(format!("{a}\r{b}\n\n\n日本語 {c}"));
     }
+    // every line starts with two characters of one UTF-8 width class, the boundary code points of each class
+    // included (U+7F/U+80, U+7FF/U+800, U+FFF/U+1000, U+FFFF/U+10000, U+10FFFF) and scripts living at them
+    if let Some(s0) = srcs.first().cloned() {
+      let classes = ["\u{7f}\u{80}", "\u{7ff}\u{7ff}", "\u{800}\u{800}", "สวัสดี", "\u{fff}\u{1000}", "\u{d7ff}\u{e000}", "\u{fffd}\u{ffff}", "\u{10000}\u{10ffff}", "नमस्ते", "ༀ\u{e01}a\u{e01}"];
+      let off = rng.below(classes.len());
+      let v: Vec<String> = s0.split('\n').take(40).enumerate().map(|(i, l)| format!("{} {l}", classes[(i + off) % classes.len()])).collect();
+      srcs.push(v.join("\n"));
+      out.count("source:utf8-width-class-prefixes");
+    }
     srcs.push(String::new());
     for src in &srcs {
       let sg = corpus::parse(lang, src);
